@@ -4,7 +4,7 @@
 package errors
 
 //@ func calcBounds props C07
-//@   requires 0 <= size && size <= 4611686018427387904
+//@   requires 0 <= size && size <= 140737488355328
 //@   ensures 0 <= lbound && lbound <= rbound && rbound <= size
 //@   ensures (0 <= pos && pos < size) ==> rbound - lbound <= 33
 //@   ensures lwidth >= 0 && rwidth >= 0 && lwidth + rwidth <= 32
